@@ -78,6 +78,27 @@ def cases(ctx):
             prog[-2][1][2] = len(prog)   # blt falls out past the jmp
         yield {"kind": "direct", "nq": nq, "seed_prog": seed, "prog": prog, "debug": rng.random() < 0.3, "load": False,
                "loaded_two_qubit": False, "script": [rng.randrange(2) for _ in range(8)]}
+    for _ in range(ctx.n(120, 8000)):
+        # operand registers that still point at their qubits from an EARLIER subroutine of the application (registers persist):
+        # used by single-qubit gates without being set again, around carbon-carbon gates that borrow a register for the electron
+        nq = rng.choice([3, 4, 5])
+        seed = []
+        for v in range(nq):
+            seed += [["set", [["Q", 0], v]], ["qalloc", [["Q", 0]]], ["init", [["Q", 0]]], ["set", [["Q", 0], v]], [rng.choice(["h", "k", "x"]), [["Q", 0]]]]
+        carried = {}
+        for r in rng.sample([2, 3, 4, 5], rng.choice([1, 2, 3])):
+            carried[r] = rng.randrange(nq)
+            seed.append(["set", [["Q", r], carried[r]]])
+        prog = []
+        for r in sorted(carried):        # each carried register is read before the first two-qubit gate
+            prog.append([rng.choice(["h", "s", "x", "t"]), [["Q", r]]])
+        for _j in range(rng.choice([1, 2, 3])):
+            a, b2 = rng.sample(range(nq), 2)
+            prog += [["set", [["Q", 0], a]], ["set", [["Q", 1], b2]], [rng.choice(["cnot", "cphase"]), [["Q", 0], ["Q", 1]]]]
+            r = rng.choice(sorted(carried))
+            prog.append([rng.choice(["h", "z", "x", "k"]), [["Q", r]]] if rng.random() < 0.6 else ["rot_" + rng.choice("xyz"), [["Q", r], rng.randrange(32), 4]])
+        yield {"kind": "direct", "nq": nq, "seed_prog": seed, "prog": prog, "debug": rng.random() < 0.3, "load": False, "carried": True,
+               "loaded_two_qubit": False, "script": [rng.randrange(2) for _ in range(8)]}
     for _ in range(ctx.n(300, 30000)):
         g = HostGen(rng, max_depth=rng.choice([2, 3]), allow_regs=False)
         g.p_cond_regmeas = 0.0
